@@ -93,12 +93,11 @@ class SpanActionContext(ActionContext):
         for span_processor in self.trigger_context.config.span_processors:
             try:
                 span = span_processor.create_span(name, self.trigger_context.id, self.location_action.tracepoint.id)
+                if span:
+                    spans.append(span)
             except Exception:
                 # a failing span plugin costs only its own span
                 deep.logging.exception("Cannot create span with %s", span_processor)
-                continue
-            if span:
-                spans.append(span)
 
         if len(spans) > 0:
             self.trigger_context.attach_result(SpanResult(spans))
